@@ -1,7 +1,7 @@
 (* C06 — a truncated file never reads as a complete table.
    rspec m bs a: the reader m returns a on bs whatever follows, and on EVERY strict prefix of bs
    it fails with a hard error (neither OK nor end-of-table).  Statements only. *)
-From Sbdf Require Import File PrimFacts SevenBit ObjFacts VaFacts SliceFacts FileFacts.
+From Sbdf Require Import File PrimFacts SevenBit ObjFacts VaFacts SliceFacts TmFacts FileFacts.
 
 Theorem C06_meaning : forall A (m : R A) bs a, rspec m bs a ->
   forall n, 0 <= n < zlen bs -> exists e, m (ztake n bs) = Err e /\ e <> SBDF_OK /\ e <> SBDF_TABLEEND.
@@ -39,3 +39,32 @@ Theorem C06_session_truncated : forall swp sls ncols fuel n,
   hard st /\ exists k, l = map owned_ts (firstn k sls).
 Proof. exact read_slices_truncated. Qed.
 Print Assumptions C06_session_truncated.
+
+(* the table-metadata section: exact on the whole section, every strict prefix refused *)
+Theorem C06_table_metadata : forall swp t names, tm_ok t ->
+  (forall n, In n names -> tentry_ok n) -> zlen names < 2147483648 ->
+  (forall c, In c (tcols t) -> names_ok names c) ->
+  rspec (tm_read swp None) (enc_tm swp t names)
+        {| tmeta := {| ments := ments (tmeta t); mmod := false |}; tcols := map (norm names) (tcols t) |}.
+Proof. exact rspec_tm. Qed.
+Print Assumptions C06_table_metadata.
+
+(* the whole file (header, table metadata, slices, end marker) cut at ANY byte offset: the reading
+   session ends with a hard error; the metadata it may have delivered is the full file's, and the
+   slices delivered before the error are the first k slices of the full file, unchanged *)
+Theorem C06_file_truncated : forall swp meta sls names n, wf_file meta sls names ->
+  0 <= n < zlen (enc_file swp meta sls names) ->
+  let '(t, st, _) := read_table swp None None (ztake n (enc_file swp meta sls names)) in
+  (st <> SBDF_OK /\ st <> SBDF_TABLEEND) /\
+  match t with
+  | None => True
+  | Some T => t_meta T = t_meta (read_back meta sls names) /\ exists k, t_slices T = map owned_ts (firstn k sls)
+  end.
+Proof. exact read_file_truncated. Qed.
+Print Assumptions C06_file_truncated.
+
+(* and only the complete file reaches end-of-table *)
+Theorem C06_file_complete : forall swp meta sls names tail, wf_file meta sls names ->
+  read_table swp None None (enc_file swp meta sls names ++ tail) = (Some (read_back meta sls names), SBDF_TABLEEND, enc_end ++ tail).
+Proof. exact read_file_exact. Qed.
+Print Assumptions C06_file_complete.
